@@ -100,7 +100,8 @@ def run(ctx):
                     cheb = not (tau < 8 and rng.random() < 0.4)
                     cases.append({"fn": "gen", "name": name, "args": G.enc_args({"tau": tau, "epsilon": eps}), "ensure_bounded": rng.random() < 0.7,
                                   "return_scale": False, "chebyshev_basis": cheb, "timeout": 300})
-        for kappa, eps in ((1.5, 0.3), (2, 0.1), (3, 0.3), (3, 0.01), (4, 1e-3), (5, 0.1), (10, 0.1), (8, 0.05), (3, 1e-3), (2.5, 0.2), (6, 1e-4), (2, 1e-10))[: (7 if quick else 12)]:
+        for kappa, eps in ((1.5, 0.3), (2, 0.1), (3, 0.3), (3, 0.01), (4, 1e-3), (5, 0.1), (10, 0.1), (8, 0.05), (3, 1e-3), (2.5, 0.2), (6, 1e-4), (2, 1e-10))[: (7 if quick else 12)] + \
+                          ((2, 1e-9), (3, 1e-10), (1.5, 1e-10)) + (() if quick else ((2, 1e-10), (4, 1e-9), (1.2, 1e-12))):    # very small epsilon: the truncation order matters
             for eb in (True, False):
                 cases.append({"fn": "gen", "name": "invert", "args": G.enc_args({"kappa": float(kappa), "epsilon": eps}), "ensure_bounded": eb,
                               "return_scale": eb, "chebyshev_basis": True, "timeout": 300})
